@@ -28,6 +28,18 @@ def _to_literal(value):
         return value
 
 
+def _get_value_alignment(member):
+    """Alignment of the member's type itself (member.alignment may be raised by flag or block rules)."""
+    node = member
+    while getattr(node, 'definition', None):
+        node = node.definition
+    if isinstance(node, (model.Struct, model.Union)):
+        return node.alignment
+    if isinstance(node, model.Enum):
+        return model.ENUM_SIZE
+    return model.BUILTIN_SIZES[node.type_name]
+
+
 class _Padder(object):
     PADDINGS = (
         (1, 'uint8_t'),
@@ -121,7 +133,12 @@ class _HppDefinitionsTranslator(TranslatorBase):
             else:
                 field = '{0} {1};\n'.format(typename, member.name)
             if member.optional:
-                field = 'prophy::bool_t has_{0};\n'.format(member.name) + field
+                flag = 'prophy::bool_t has_{0};\n'.format(member.name)
+                value_alignment = _get_value_alignment(member)
+                if value_alignment > model.DISC_SIZE:
+                    # the value of an optional lies at max(4, its alignment) from the flag
+                    flag += padder.generate_padding(value_alignment - model.DISC_SIZE)
+                field = flag + field
             if member.padding is not None and member.padding > 0:
                 field += padder.generate_padding(member.padding)
             return field
